@@ -161,6 +161,15 @@ CLAIMED = {
    note=TB + "Sub-tree caching is abstracted to its leaves (sound for blob functions pure in (path, blob)); gitobj's object codec and rev-list ordering are trusted; --fixup and --include-ref/--exclude-ref are not generated by the scenario campaign (D12 is carried by the Lean counterexample only); the working tree after migrate is not compared (documented: repopulate with git lfs checkout). D35 (tag message loses its final newline) is a known finding.",
    technique="Lean 4 proof (memoisation invariant by induction over trees and histories) + scenario correspondence on real repositories (plumbing comparison of old and new histories) + differential check of the rewritten trees against the model",
    ref="§5 C12"),
+ "C16": dict(
+   text="Lean theorems over the model of the lock client against a server table (lock, unlock by path / by id with --force and the modified-file guard, verification, the other user's lock and unlock): (c) without --force, unlocking a file with uncommitted changes changes neither table nor cache, by path and by id, for every server answer; "
+        "nobody else's lock is released without --force; (b) every lock the server holds for the user is cached after ANY operation and ANY server answer (step_ownCached, for tables with unique ids), the cache lists only own server locks as long as no verification ran (step_cacheOwn), a holder's file is writable after every flag fix and, on verification-free histories, only a holder's; "
+        "the D13 counterexample (a verification caches the other user's lock and makes his file writable) is decided; (a) with verification enabled a push touching a path locked by another user is rejected, paths locked by the pusher or by nobody never block, nothing blocks when verification is off. "
+        "Scenarios with the real binary against the fake lock server (two users, ok/403/404/501/500 answers, paginated lists, locksverify true/false/unset incl. the 404-switches-it-off rule, setlockablereadonly on/off, names with blanks, a lockable non-LFS file): after every step the server table and `git lfs locks --local --json` are compared with the model, "
+        "push exits are judged against table and `git log --name-only`, guarded unlocks are provoked (lock, edit, unlock by path/id), and a final full-scan checkout hook is followed by a write-bit check of every lockable file.",
+   note=TB + "The pre-push hook's verification runs in a lock client whose cache is never saved (observed; modelled as no cache effect). `git status`, `git log --name-only` and the hooks' triggering are git's. Known findings: D13 (verification caches other users' locks; pinned by TestRefreshCache) and D27 (verification sees blob names of rev-list, not the paths commits touch). Fixed in /repo: D14, D15, D36. Force-unlock of the client's own locks by the other user is not generated (the client cannot know until it lists).",
+   technique="Lean 4 proof (step invariants of the lock bookkeeping, decided counterexample for D13, gate characterisation) + per-step scenario correspondence against a fake lock server + direct oracle on table, cache listing, write bits and push exits",
+   ref="§5 C16"),
 }
 PENDING_REASON = "check not built yet in this session (build in progress, see DESIGN.md §10); not claimed until its theorems and correspondence run"
 ALL = ["C%02d" % i for i in range(1, 21)]
